@@ -74,7 +74,7 @@ def run_tool(lha, args, archive, rundir, pre=None, stdin=b"", mode="extract", ex
         cmd += ["setpriv", "--reuid=%d" % UNPRIV, "--regid=%d" % UNPRIV, "--clear-groups"]
     cmd += [lha] + args + [archive] + [bytes(f) for f in filters]
     env = V.run_env()
-    p = subprocess.run(cmd, capture_output=True, cwd=root, env=env, input=stdin, timeout=timeout)
+    p = V.run_bounded(cmd, capture_output=True, cwd=root, env=env, input=stdin, timeout=timeout)
     ev = [{"e": "Reset", "cwd": loc_of(root), "root": loc_of(os.path.join(root, wdir) if wdir else root), "pre": pre_ev, "mode": mode, "case": os.path.basename(rundir)}]
     if extra_reset:
         ev[0].update(extra_reset)
